@@ -23,6 +23,10 @@ GROUPS = [
     ("text", r"^text::Padded\[|^regex::Regex\[|^number::Number\[", ["C14"]),
     ("extension", r"^extension::current::", ["C04"]),
     ("inputref", r"^input::InputRef::(parse|check)$", ["C20"]),
+    # additional property memberships (the file is decided by the first match above)
+    ("+c03", r"^primitive::(End|Any)\[Parser\]|^combinator::ThenIgnore\[Parser\]|^combinator::Repeated\[(Parser|IterParser)\]", ["C03"]),
+    ("+c07", r"^combinator::(ToSlice|ToSpan|MapWith|TryMap|TryMapWith|Validate|FoldlWith|FoldrWith|Filter)\[|^primitive::(Select|SelectRef)\[|^pratt::(Infix|Prefix|Postfix|Pratt)", ["C07"]),
+    ("+c06", r"^primitive::(End|Just|OneOf|NoneOf|Any|AnyRef|Select|SelectRef|Custom)\[|^combinator::(Filter|TryMap|TryMapWith|Not)\[", ["C06"]),
 ]
 
 # bodies that are protocol bodies but deliberately have no contract automaton (decided by other rules)
@@ -35,10 +39,16 @@ NO_CONTRACT = [
 
 
 def group_of(uname):
-    for g, pat, props in GROUPS:
+    first = None
+    props = []
+    for g, pat, ps in GROUPS:
         if re.search(pat, uname):
-            return g, props
-    return None, []
+            if first is None and not g.startswith("+"):
+                first = g
+            for p_ in ps:
+                if p_ not in props:
+                    props.append(p_)
+    return first, (props if first is not None else [])
 
 
 def skipped(uname):
